@@ -15,6 +15,13 @@ from .calls import Calls
 from .contracts import REG, parse_type, type_str
 
 
+# methods of str / dict / tuple that never write (used when the receiver's static type is unknown
+# while computing the write-set of a loop); no repository class defines a method with one of these names
+PURE_METHOD_NAMES = {'isdigit', 'isdecimal', 'isalpha', 'isalnum', 'isspace', 'lower', 'upper', 'strip', 'lstrip',
+                     'rstrip', 'startswith', 'endswith', 'find', 'split', 'splitlines', 'join', 'replace', 'format',
+                     'get', 'keys', 'values', 'items', 'index', 'count', 'copy', 'title', 'rjust', 'ljust'}
+
+
 class Verifier(Calls):
 
     # ------------------------------------------------------------ statements
@@ -467,7 +474,8 @@ class Verifier(Calls):
             elif isinstance(t, ast.Attribute):
                 acc['heap'].append(('field', t.attr, sub(t.value)))
             elif isinstance(t, ast.Subscript):
-                acc['heap'].append(('item', None, sub(t.value)))
+                k = t.slice.value if isinstance(t.slice, ast.Constant) and isinstance(t.slice.value, str) else None
+                acc['heap'].append(('item', k, sub(t.value)))
             elif isinstance(t, (ast.Tuple, ast.List)):
                 for e in t.elts:
                     visit_target(e)
@@ -533,6 +541,8 @@ class Verifier(Calls):
                 return ('builtin', 'super', None)
             recv_t = self.static_type(f.value, st, submap, is_caller_scope)
             if recv_t is None:
+                if f.attr in PURE_METHOD_NAMES:
+                    return ('builtin', 'pure.' + f.attr, None)
                 return None
             if recv_t[0] == 'ref':
                 key, _ = self.find_method(recv_t[1], f.attr)
@@ -725,7 +735,8 @@ class Verifier(Calls):
             acc['heap'].append(('field', t.attr, sub(t.value)))
             return
         if isinstance(t, ast.Subscript):
-            acc['heap'].append(('item', None, sub(t.value)))
+            k = t.slice.value if isinstance(t.slice, ast.Constant) and isinstance(t.slice.value, str) else None
+            acc['heap'].append(('item', k, sub(t.value)))
             return
         acc['heap'].append(('all', 'modifies %s' % mexpr, None))
 
@@ -785,6 +796,8 @@ class Verifier(Calls):
                 elif alts and len(alts) == 1 and isinstance(alts[0], VRec):
                     rv = alts[0]
                     for k2, T in self.rec_fields(rv.name).items():
+                        if name is not None and k2 != name:
+                            continue        # d['key'] = ... writes one key only
                         self.rec_store(st, rv, k2, self.make_fresh(st, parse_type(T), k2))
                     exempt.append(rv.t)
                 elif fresh_bound is not None:
